@@ -459,6 +459,23 @@ func (sc *scen) runTCPCancel() {
 	if who == 1 {
 		x, y = p.b, p.a
 	}
+	// more registered sessions on the node whose backends are cancelled: every one of them owes the two requests
+	mb := memnet.NewBackend()
+	if err := x.n.AddBackend(mb); err != nil {
+		sc.giveUp("AddBackend(memnet): %v", err)
+	}
+	for k := 0; k < 3; k++ {
+		q, err := peer.Attach(mb, fmt.Sprintf("q%d", k), int64(sc.idx)*10+int64(k)+1)
+		if err != nil {
+			sc.giveUp("attach: %v", err)
+		}
+		if err := q.Handshake(x.id, 1, nil); err != nil {
+			sc.giveUp("handshake: %v", err)
+		}
+		if !sc.poll(10*time.Second, func() bool { return x.connected(q.ID) }) {
+			sc.giveUp("%s not established with scripted peer %s within 10 s", x.id, q.ID)
+		}
+	}
 	sc.cancelBackends(x, 20*time.Second)
 	st := x.n.Status()
 	if len(st.Connections) != 0 {
